@@ -271,6 +271,8 @@ class World:
             return _REAL_START(thread)
 
         def join(thread, timeout=None):
+            if thread is threading.current_thread():
+                raise RuntimeError("cannot join current thread")  # what the real join does
             if thread in sim.live or getattr(thread, "_vf_started", False):
                 sim.block("join", lambda: getattr(thread, "_vf_finished", False))
                 me = threading.current_thread()
